@@ -769,7 +769,10 @@ class Source:
 
     def parse_pyclass(self, rel, toks, i, attrs):
         pyname = None
+        transparent = False
         for name, inner, line in attrs:
+            if name == "repr" and text(attr_args(inner)) == "transparent":
+                transparent = True
             if name not in KNOWN_STRUCT_ATTRS:
                 raise Fail("%s:%d: attribute #[%s] on a #[pyclass] is not understood" % (rel, line, name))
             if name in ("pyclass", "pyo3"):
@@ -806,6 +809,8 @@ class Source:
         elif toks[i].t == "{":
             j = match_close(toks, i)
             for part in split_top(toks[i + 1:j]):
+                if any(t.k == "id" and t.t == "pyo3" for t in part[:len(part) - len(strip_attrs(part))]):
+                    raise Fail("%s:%d: #[pyo3(...)] on a field of #[pyclass] %s is not understood" % (rel, part[0].line, rname))
                 part = strip_vis(strip_attrs(part))
                 if not part:
                     continue
@@ -817,7 +822,7 @@ class Source:
         if rname in self.classes:
             raise Fail("%s: duplicate #[pyclass] %s" % (rel, rname))
         self.classes[rname] = {"rust": rname, "py": pyname or rname, "fields": fields, "shape": shape, "file": rel,
-                               "line": attrs[0][2]}
+                               "line": attrs[0][2], "transparent": transparent}
         return i
 
     def parse_sig(self, rel, line, sigtoks, params):
@@ -1533,13 +1538,14 @@ Record item := {
   i_rust_name : string;    (* name of the Rust fn *)
   i_kind : kind;
   i_params : list param;
+  i_ret : string;          (* declared return type (token text) *)
   i_pre : list string;     (* assert!s executed by the wrapper before delegating *)
   i_body : body;
   i_where : string
 }.
 
 (* #[pyclass]: wrapper struct, python name, wrapped type *)
-Record pyclass := { c_rust : string; c_py : string; c_wrapped : string; c_where : string }.
+Record pyclass := { c_rust : string; c_py : string; c_wrapped : string; c_transparent : bool; c_where : string }.
 '''
 
 
@@ -1654,7 +1660,8 @@ def generate(repo):
     for c in sorted(src.classes.values(), key=lambda c: (c["file"], c["line"])):
         wrapped = c["fields"][0][1] if len(c["fields"]) == 1 else "{" + ",".join("%s:%s" % f for f in c["fields"]) + "}"
         c["wrapped"] = wrapped
-        rows.append("  {| c_rust := %s; c_py := %s; c_wrapped := %s; c_where := %s |}" % (cs(c["rust"]), cs(c["py"]), cs(wrapped), cs("%s:%d" % (c["file"], c["line"]))))
+        rows.append("  {| c_rust := %s; c_py := %s; c_wrapped := %s; c_transparent := %s; c_where := %s |}"
+                    % (cs(c["rust"]), cs(c["py"]), cs(wrapped), "true" if c["transparent"] else "false", cs("%s:%d" % (c["file"], c["line"]))))
     out.append("Definition classes : list pyclass := [\n%s\n]." % ";\n".join(rows))
     out.append("Definition module_name : string := %s." % cs(src.pymodule_name))
     out.append("Definition registered_classes : list string := %s." % clist(cs(x) for x in src.reg_classes))
@@ -1671,9 +1678,9 @@ def generate(repo):
         c = src.classes.get(it["class"]) if it["class"] else None
         params = clist("{| p_name := %s; p_type := %s; p_default := %s |}" % (cs(p["name"]), cs(p["type"]), cdefault(p["default"], rd.consts)) for p in it["params"])
         rows.append("  {| i_class := %s; i_rust_class := %s; i_wrapped := %s; i_name := %s; i_rust_name := %s; i_kind := %s;\n"
-                    "     i_params := %s;\n     i_pre := %s;\n     i_body := %s;\n     i_where := %s |}"
+                    "     i_params := %s;\n     i_ret := %s;\n     i_pre := %s;\n     i_body := %s;\n     i_where := %s |}"
                     % (cs(c["py"] if c else ""), cs(c["rust"] if c else ""), cs(c["wrapped"] if c else ""), cs(py_attr_name(it)),
-                       cs(it["rust_name"]), KIND[it["kind"]], params, clist(cs(x) for x in cl.pre), cbody(b),
+                       cs(it["rust_name"]), KIND[it["kind"]], params, cs(it["ret"]), clist(cs(x) for x in cl.pre), cbody(b),
                        cs("%s:%d" % (it["file"], it["line"]))))
         summary.append({"class": c["py"] if c else "", "name": py_attr_name(it), "kind": it["kind"], "body": b[0],
                         "hash": b[1] if b[0] == "Other" else None, "why_other": it.get("why_other"),
